@@ -96,6 +96,7 @@ func c15Gen(x *mcx.Exec, method string, max int) J {
 		paths["/C d/~e/./{x}/"] = J{"parameters": []any{c15Param("header:limit", "odd")},
 			"get": J{"operationId": "opOdd", "parameters": []any{c15Param("query:id", "oddq")}, "responses": J{"200": J{"description": "ok"}}}}
 		paths["/0first"] = J{"get": J{"operationId": "opFirst", "parameters": []any{c15Param("query:limit", "first")}, "responses": J{"200": J{"description": "ok"}}}}
+		paths["/c2"] = J{"get": J{"operationId": "opc", "parameters": []any{c15Param("header:limit", "c2")}, "responses": J{"200": J{"description": "ok"}}}}
 		paths["/c"] = J{"get": J{"operationId": "opC", "parameters": []any{c15Param("query:limit", "c")}, "responses": J{"200": J{"description": "ok"}}}}
 		paths["/d"] = J{"parameters": []any{c15Param("header:id", "pathd")},
 			"put": J{"operationId": "opD", "parameters": []any{J{"$ref": "#/parameters/sp"}}, "responses": J{"200": J{"description": "ok"}}}}
@@ -294,7 +295,7 @@ func c15Check(docJSON string, pol mcrt.Policy) (sig, what string, nontrivial boo
 		}
 	}
 	// by operation id
-	for _, id := range []string{"theOp", "no-such-op", "opC", "opOdd", "opD", "theOp", "opFirst"} {
+	for _, id := range []string{"theOp", "no-such-op", "opC", "THEOP", "opOdd", "opD", "theOp", "OPc", "opFirst", "opc"} {
 		var pi, op map[string]any
 		for _, p := range h.SortedKeys(paths) {
 			for _, m := range methods7 {
